@@ -43,6 +43,16 @@ def strategy(tier):
     return case()
 
 
+def _well_conditioned(case, y, yhat, traj, ref):
+    """'Within solver tolerance': a solver error of 1e-8 relative to the largest state, pushed through the loss derivative,
+    must stay below a tenth of the comparison tolerance - otherwise (predictions decayed to ~1e-6 under a log-type loss) the
+    cost amplifies the integrators' absolute error and the case cannot be decided at 1e-5."""
+    dl = lossgen.ref_dloss(case, y, yhat)
+    amplified = 1e-8 * (1 + float(np.abs(traj).max())) * float(np.abs(dl).sum())
+    if amplified > 1e-6 * (1 + abs(ref)):
+        raise Inconclusive("loss amplifies solver error")
+
+
 def _check_costIV(case, rec, obj, key, m, su, names, y, th, free, times, cols):
     """costIV([free parameters, free initial values in target_state order])."""
     ts = case.get("target_state")
@@ -60,6 +70,7 @@ def _check_costIV(case, rec, obj, key, m, su, names, y, th, free, times, cols):
     if (yhat2 <= 1e-9).any() and case["loss"] not in ("Square", "Normal"):
         return
     ref2 = lossgen.ref_cost(case, y, yhat2)
+    _well_conditioned(case, y, yhat2, traj2, ref2)
     arg = np.array(list(free) + [x0e[names.index(s_)] for s_ in ts_names])
     got2 = call(key + "/costIV", case, obj.costIV, arg)
     rec.label("costIV:" + ("target_state" if ts else "all-states"))
@@ -90,6 +101,7 @@ def oracle(case, rec):
     if (yhat <= 1e-9).any():
         raise Inconclusive("prediction not positive")
     ref = lossgen.ref_cost(case, y, yhat)
+    _well_conditioned(case, y, yhat, traj, ref)
     rec.label("order:" + ("costIV-first" if case.get("iv_first") else "cost-first"))
     if case.get("iv_first"):
         _check_costIV(case, rec, obj, key, m, su, names, y, th, free, times, cols)
